@@ -552,10 +552,12 @@ def main():
                 "and one of COUNT/UNTIL/year-9999/limit/fuel under coarse_guard_all (C01_rrule_term_kinds_partial), a "
                 "finished run is complete (C01_rrule_complete_headline_partial); NOT stated: that some fuel ends "
                 "every run; no-exception / term kinds under the BYEASTER branch of full_guard",
-                "sub-daily FREQ: a raise happens only when the specification has nothing more, for ANY exception "
-                "class -- 'only ValueError' is not a theorem for iterate there (core lemmas: no TypeError inside "
-                "spec_wf); outside spec_wf the TypeError existed (finding F-C01-outofrange-typeerror, fixed by e1e7505: "
-                "such members are now skipped by __construct_byset and the empty set raises ValueError)",
+                "sub-daily FREQ: a raise happens only when the specification has nothing more and its class is "
+                "ValueError (C01_subdaily_raise_is_end_partial, C01_subdaily_raise_is_valueerror_partial: sfam_sa, no "
+                "BYEASTER); the constructor raises only ValueError for every argument record "
+                "(C01_normalize_only_valueerror); outside spec_wf the iteration's TypeError existed (finding "
+                "F-C01-outofrange-typeerror, fixed by e1e7505: such members are skipped by __construct_byset and the "
+                "empty set raises ValueError at construction)",
                 "whole-second resolution and the start's tzinfo are true BY CONSTRUCTION of the model's instant type "
                 "(ordinal, second of day; tzinfo opaque): checked on every yielded value, not proved",
                 "tie model = code: rrule.__init__, __construct_byset, __mod_distance and all of _iterinfo are "
